@@ -237,7 +237,29 @@ async def prog_nested(flavor, p):
     return {"out": out, "info": info}
 
 
-PROGS = {"nested": prog_nested, "response": prog_response, "fault": prog_fault, "history": prog_history, "handover": prog_handover,
+async def prog_upload(flavor, p):
+    """A request body given as one bytes object (the library wraps it itself - in hand-written code with a sync and an async
+    iterator): how it is cut into writes / chunks / DATA frames must not depend on the flavour."""
+    from .. import endpoints
+    from ..world import mk_pool, API, guarded
+    net = simnet.Net()
+    h2 = p["proto"] == "h2"
+    o = endpoints.Origin(net, "o.test", 443 if h2 else 80, tls=h2, alpn=["h2"] if h2 else None)
+    pool = mk_pool(flavor, net, http2=h2)
+    api = API(flavor, pool, net)
+    body = bytes((i * 31 + 7) % 251 for i in range(997)) * (p["size"] // 997 + 1)
+    body = body[:p["size"]]
+    hdrs = [("X-Token", "u")] + ([("Transfer-Encoding", "chunked")] if p.get("te") else [])
+    out = await guarded(flavor, lambda: api.request("POST", ("https" if h2 else "http") + "://o.test/up", headers=hdrs, content=body))
+    req = o.requests[0] if o.requests else None
+    info = {"outcome": out, "received": len(req.body) if req else None,
+            "received_ok": bool(req) and bytes(req.body) == body,
+            "chunk_sizes": list(getattr(req, "chunk_sizes", []) or [])[:200] if req else None}
+    await guarded(flavor, api.close_pool)
+    return info
+
+
+PROGS = {"upload": prog_upload, "nested": prog_nested, "response": prog_response, "fault": prog_fault, "history": prog_history, "handover": prog_handover,
          "proxy": prog_proxy, "mutated": prog_mutated}
 
 
@@ -455,6 +477,9 @@ def plan(tier, seed):
         wire = gen.build_resp(spec).serialise()
         raw, kind = c15.mutate_bytes(r, wire)
         progs.append(["mutated", {"raw": raw[:4000].decode("latin1"), "mutation": kind}])
+    for proto, te in (("h1", False), ("h1", True), ("h2", False)):
+        for size in (0, 1, 65535, 65536, 65537, 100_000, 200_000):
+            progs.append(["upload", {"proto": proto, "te": te, "size": size}])
     for proto in ("h1", "h2"):
         for kind in ("request", "upgrade"):
             if not (proto == "h2" and kind == "upgrade"):
